@@ -1088,6 +1088,20 @@ class UGrid(DimensionConvention[UGridKind, UGridIndex]):
             dimensions[UGridKind.edge] = [self.topology.edge_dimension]
         return dimensions
 
+    @property
+    def grid_shape(self) -> dict[UGridKind, Sequence[int]]:
+        # The edge dimension can be named by the mesh topology
+        # without any variable in the dataset using it.
+        # The topology helper knows how to count the edges in that case.
+        topology = self.topology
+        shape: dict[UGridKind, Sequence[int]] = {
+            UGridKind.node: (topology.node_count,),
+            UGridKind.face: (topology.face_count,),
+        }
+        if topology.has_edge_dimension:
+            shape[UGridKind.edge] = (topology.edge_count,)
+        return shape
+
     def unpack_index(self, index: UGridIndex) -> tuple[UGridKind, Sequence[int]]:
         return index[0], index[1:]
 
